@@ -98,3 +98,63 @@ package scalar
 //@   ensures wf: eval(out1) < N
 //@   derives fv: fromMn(eval(out1)) == nofint(old(eval(arg1))) by glue_to_n(eval(out1), old(eval(arg1)))
 //@   modifies *out1
+
+// ---- scalar value layer: sv = fromMn(eval(limbs)) in Z_n ----
+//@ declare ninv(Fn) Fn
+//@ lemma glue_zero_n(x) {lean: Secp.glue_zero}: imp(x < N, (fromMn(x) == Fn(0)) == (x == 0))
+//@ lemma glue_inj_n(x, y) {lean: Secp.glue_inj}: imp(x < N && y < N, (fromMn(x) == fromMn(y)) == (x == y))
+//@ lemma nofint_mod(x, y) {lean: Secp.fofint_mod}: imp((x - y) % N == 0, nofint(x) == nofint(y))
+//@ lemma nint_range(x) {lean: Secp.fint_range}: 0 <= fint(x) && fint(x) < N
+//@ lemma nofint_fint(x) {lean: Secp.fofint_fint}: imp(0 <= x && x < N, fint(nofint(x)) == x)
+//@ lemma nofint_wide(a, b, c) {lean: Secp.fofint_wide}: nadd(nadd(nofint(a), nmul(nofint(b), Fn(pow2(192)))), nmul(nofint(c), Fn(pow2(384)))) == nofint(a + b * pow2(192) + c * pow2(384))
+//@ lemma fermat_inv_n(x) {lean: Secp.fermat_inv}: npow(x, N - 2) == ninv(x)
+
+//@ func IsFEZero
+//@   mode int
+//@   requires eval(u) < N
+//@   ensures limbs: result == ite(eval(u) == 0, 1, 0)
+//@   derives z: result == ite(fromMn(eval(u)) == Fn(0), 1, 0) by glue_zero_n(eval(u))
+
+//@ func Equal
+//@   mode int
+//@   requires eval(u) < N && eval(v) < N
+//@   ensures limbs: result == ite(eval(u) == eval(v), 1, 0)
+//@   derives eq: result == ite(fromMn(eval(u)) == fromMn(eval(v)), 1, 0) by glue_inj_n(eval(u), eval(v))
+
+//@ func CMove
+//@   mode int
+//@   requires c01: c <= 1
+//@   ensures sel: forall(i, 0, 4, out[i] == ite(c == 0, old(u[i]), old(v[i])))
+//@   modifies *out
+
+//@ func ReduceBytes
+//@   mode int
+//@   ensures flag: result == ite(os2ip(input) < N, 1, 0)
+//@   ensures v: eval(out) < N && fromMn(eval(out)) == nofint(os2ip(input)) by nofint_mod(os2ip(input), os2ip(input) - N)
+//@   modifies *out
+
+//@ func FromBytesNoReduce
+//@   mode int
+//@   lens input 16,24
+//@   requires len(input) == 16 || len(input) == 24
+//@   ensures v: eval(out) < N && fromMn(eval(out)) == nofint(os2ip(input))
+//@   modifies *out
+
+//@ func HashToFieldElement
+//@   mode int
+//@   ensures v: eval(out) < N && fromMn(eval(out)) == nofint(os2ip(input)) by nofint_wide(os2ip(input[24:48]), os2ip(input[0:24]), 0)
+//@   modifies *out
+
+//@ func scalar.Invert
+//@   mode pow
+//@   requires !same(s, x) && !same(s.s, x.s)
+//@   requires eval(x.s) < N
+//@   ensures pw: eval(s.s) < N && fromMn(eval(s.s)) == npow(old(fromMn(eval(x.s))), N - 2)
+//@   modifies *s.s
+//@   returns s
+
+//@ func Invert
+//@   mode int
+//@   requires eval(in) < N
+//@   ensures inv: eval(out) < N && fromMn(eval(out)) == ninv(old(fromMn(eval(in)))) by fermat_inv_n(old(fromMn(eval(in))))
+//@   modifies *out
